@@ -93,6 +93,17 @@ def default_main(mod, ctx):
 def finish(mod, ctx, agg, coverage):
     pid = ctx.pid
     new, hit = report.split_known(pid, agg.violations)
+    if os.environ.get("QMC_SAVE_FINDINGS"):
+        # maintenance mode (never used by the registered commands): store one replayable representative per known finding
+        fdir = os.path.join(report.VERIF, "findings")
+        os.makedirs(fdir, exist_ok=True)
+        done = set()
+        for v in agg.violations:
+            for k in report.load_known():
+                if k["property"] == pid and k["id"] not in done and report._match(k["match"], v["fields"]):
+                    done.add(k["id"])
+                    with open(os.path.join(fdir, f"{pid}-{k['id']}.json"), "w") as f:
+                        json.dump(v, f, indent=1, sort_keys=True)
     # group new violations into classes, confirm one representative of each by replay
     classes = {}
     for v in new:
